@@ -6,7 +6,7 @@ _counter = [0]
 
 # patterns in the model's language: alternation of literals, each optionally anchored with ^
 PATTERN_POOL = [[[True, "BEGIN"]], [[False, "GIN X"]], [[False, "B"]], [[True, "B"]], [[False, "END"], [False, "STOP"]],
-                [[True, "END"]], [[False, "X"]], [[False, "E"]], [[True, "#"]], [[False, "--"]]]
+                [[True, "END"]], [[False, "X"]], [[False, "E"]], [[True, "#"]], [[False, "--"]], [[False, ""]]]
 
 
 def regex_of(pat, binary=False):
